@@ -84,7 +84,9 @@ class DictWriter:
                 else:
                     tag = getattr(odml_document, attr)
 
-                    if tag:
+                    # Only unset attributes are skipped; a set attribute that happens
+                    # to be falsy (0, False, "") has to be saved as well.
+                    if tag is not None:
                         # Always use the arguments key attribute name when saving
                         parsed_doc[i] = tag
 
@@ -120,9 +122,9 @@ class DictWriter:
                         tag = getattr(section, attr)
                         # Tuples have to be serialized as lists to avoid
                         # nasty python code annotations when writing to yaml.
-                        if tag and isinstance(tag, tuple):
+                        if isinstance(tag, tuple):
                             section_dict[i] = list(tag)
-                        elif tag:
+                        elif tag is not None:
                             # Always use the arguments key attribute name when saving
                             section_dict[i] = tag
 
@@ -154,7 +156,7 @@ class DictWriter:
                     # nasty python code annotations when writing to yaml.
                     if isinstance(tag, tuple):
                         prop_dict[attr] = list(tag)
-                    elif (tag == []) or tag:  # Even if 'values' is empty, allow '[]'
+                    elif tag is not None:  # Keep falsy content like 0, False or an empty 'values' list
                         # Custom odML tuples require special handling.
                         if attr == "values" and prop.dtype and \
                                 prop.dtype.endswith("-tuple") and prop.values:
